@@ -169,10 +169,12 @@ impl SignatureConverter<'_> {
         let mut params = syn::punctuated::Punctuated::new();
         std::mem::swap(&mut params, &mut generics.params);
 
+        // Type and const parameters are lifted to the trait (see GenericsAnalyzer),
+        // so only lifetime parameters stay on the method.
         for param in params.into_iter() {
             match &param {
-                syn::GenericParam::Type(_) => {}
-                _ => {
+                syn::GenericParam::Type(_) | syn::GenericParam::Const(_) => {}
+                syn::GenericParam::Lifetime(_) => {
                     generics.params.push(param);
                 }
             }
